@@ -256,7 +256,13 @@ def cleanRooted (s : Bytes) : Bytes := renderPath ((splitSlash s).foldl cleanSte
 /-- `path.Join(a, b)` for rooted `a` -/
 def pathJoin (a b : Bytes) : Bytes := cleanRooted (a ++ slash :: b)
 
-def natDigits (n : Nat) : Bytes := (Nat.toDigits 10 n).map (fun c => c.toNat.toUInt8)
+/-- `strconv.Itoa` for a non-negative number (`fuel` bounds the number of digits) -/
+def natDigitsF : Nat → Nat → Bytes
+  | 0, _ => []
+  | fuel + 1, n =>
+    if n < 10 then [(48 + n).toUInt8] else natDigitsF fuel (n / 10) ++ [(48 + n % 10).toUInt8]
+
+def natDigits (n : Nat) : Bytes := natDigitsF (n + 1) n
 
 /-- is the canonical number text in exponent form (`1e+21`, `1e-7`)? -/
 def isExpForm (t : Bytes) : Bool := t.contains 101
@@ -591,7 +597,7 @@ def handleConfigID (idx : Index) (path : Bytes) : IdRes :=
     if p2 = [] then .fail .idMissing
     else if p0 ≠ [] ∨ p1 ≠ idSeg then .fail .idMalformed
     else
-      match (candidates p2 idx).eraseDups with
+      match candidates p2 idx with
       | [] => .fail .idUnknown
       | [expanded] => .to (cleanRooted (expanded ++ slash :: joinSlash rest))
       | _ => .ambiguous
